@@ -354,6 +354,17 @@ extern iface.Function.GetType
 extern RegisterAggregatorAdapter
   props C20 C06 C03
 
+// unregistering takes away the function's own name and aliases and nothing another function is registered under ... as long
+// as the names are its own: only keys that held this very function may disappear
+func (*FunctionRegistry).Unregister
+  props C20 C06
+  acquires r.mu
+  modifies mapof(r.functions), mapof(r.categories), r.snapshot
+  ensures an-unknown-name-changes-nothing: !old(dom(r.functions, strings.ToLower(name))) ==> !result && forallv(k, "", (dom(r.functions, k) <==> old(dom(r.functions, k))) && r.functions[k] == old(r.functions[k]))
+  ensures nothing-is-added-or-rebound: forallv(k, "", dom(r.functions, k) ==> old(dom(r.functions, k)) && r.functions[k] == old(r.functions[k]))
+  loop 1 invariant forallv(k, "", dom(r.functions, k) ==> old(dom(r.functions, k)) && r.functions[k] == old(r.functions[k])) && held(r.mu) && wheld(r.mu)
+  loop 2 invariant forallv(k, "", dom(r.functions, k) ==> old(dom(r.functions, k)) && r.functions[k] == old(r.functions[k])) && held(r.mu) && wheld(r.mu)
+
 func (*FunctionRegistry).Register
   props C20 C06
   acquires r.mu
